@@ -33,3 +33,14 @@ func init() {
 		}
 	}
 }
+
+func init() {
+	runners["dbg-docs"] = func(r *Run) {
+		cfg := configuration.New()
+		r.each(func(idx int, rng *Rng) {
+			for _, dc := range genDocs(rng, cfg) {
+				fmt.Println(idx, dc.format, dc.what, hx(dc.doc))
+			}
+		})
+	}
+}
